@@ -121,6 +121,13 @@ func (m *Machine) conns() []*diamConn {
 	return c
 }
 
+type lateAnswer struct {
+	name  string
+	msg   Value
+	conn  *diamConn
+	connT types.Type
+}
+
 type dbRow struct {
 	ueId   Value
 	rg     *smt.Term
@@ -244,6 +251,12 @@ func init() {
 	I[diamPkg+".NewAVP"] = func(m *Machine, fr *frame, args []Value) Value { return m.newOpaquePtr("diam.AVP", nil) }
 	I["(*"+smPkg+".StateMachine).Handle"] = func(m *Machine, fr *frame, args []Value) Value {
 		cmd := mustStr(args[1])
+		if site, blocked := m.env["muxReaderBlocked:"+cmd].(string); blocked {
+			// go-diameter's ServeMux.ServeDIAM holds the mux read lock while the
+			// handler runs; a handler stuck in a channel send keeps it for ever
+			// and Handle (write lock) can never proceed
+			m.abort(abBlocked, "mux.Handle(%q) blocks for ever: %s", cmd, site)
+		}
 		m.env["diamhandler:"+cmd] = args[2]
 		m.events = append(m.events, "mux.Handle "+cmd)
 		if h, ok := m.env["muxHandleHook"].(func(*frame, string)); ok {
@@ -354,6 +367,7 @@ func init() {
 				m.events = append(m.events, "request lost")
 				return Tuple{m.i64(1), Iface{}}
 			}
+			m.env["curClientConn"] = opaqueOf(connI).Data
 			srvConn := Iface{T: connI.T, V: &Opaque{Kind: "diam.Conn", Data: &diamConn{id: -1, server: true}}}
 			m.events = append(m.events, fmt.Sprintf("-> server cmd %d", msg.cmd))
 			func() {
@@ -379,6 +393,16 @@ func init() {
 		m.env["lastAnswer"] = msg
 		if m.cfg("diam.answerMayBeLost") && m.Choose(2) == 1 {
 			m.events = append(m.events, "answer lost")
+			return Tuple{m.i64(1), Iface{}}
+		}
+		if m.cfg("diam.answerMayBeLate") && m.Choose(2) == 1 {
+			// the answer is in flight longer than the client's 5 s timer: it is
+			// delivered later (vx.DeliverLateAnswers) on the connection the
+			// request went out on, if that connection is still open then
+			cc, _ := m.env["curClientConn"].(*diamConn)
+			la, _ := m.env["lateAnswers"].([]*lateAnswer)
+			m.env["lateAnswers"] = append(la, &lateAnswer{name: name, msg: args[0], conn: cc, connT: connI.T})
+			m.events = append(m.events, "answer delayed beyond the client timeout")
 			return Tuple{m.i64(1), Iface{}}
 		}
 		h, ok := m.env["diamhandler:"+name]
@@ -557,4 +581,36 @@ func isPtrTo(pt, t types.Type) bool {
 func asInt(v interface{}) int {
 	i, _ := v.(int)
 	return i
+}
+
+func init() {
+	p := vxPkg + "."
+	// DeliverLateAnswers delivers the answers that were delayed beyond the
+	// client timeout. An answer whose connection has been closed meanwhile is
+	// discarded (nobody reads that socket any more). Otherwise go-diameter's
+	// reader hands it to the registered handler, which sends it on the
+	// subscriber's unbuffered channel: with no request waiting, that handler
+	// blocks while holding the mux read lock; the message stays pending and is
+	// what the next receive on the channel obtains.
+	intrinsics[p+"DeliverLateAnswers"] = func(m *Machine, fr *frame, args []Value) Value {
+		la, _ := m.env["lateAnswers"].([]*lateAnswer)
+		m.env["lateAnswers"] = nil
+		n := 0
+		for _, a := range la {
+			if a.conn != nil && a.conn.closed {
+				m.events = append(m.events, "late answer discarded: connection closed")
+				continue
+			}
+			h, ok := m.env["diamhandler:"+a.name]
+			if !ok {
+				continue
+			}
+			n++
+			cliConn := Iface{T: a.connT, V: &Opaque{Kind: "diam.Conn", Data: &diamConn{id: -4}}}
+			m.call(h.(Iface).V, fr, []Value{cliConn, a.msg})
+			m.env["muxReaderBlocked:"+a.name] = "the handler of a late " + a.name + " is blocked in its channel send (no request is waiting) while holding the mux read lock"
+			m.events = append(m.events, "late "+a.name+" delivered: handler blocked in channel send")
+		}
+		return m.i64(int64(n))
+	}
 }
